@@ -186,6 +186,10 @@ func Daemon() {}
 // Quiesce blocks until no other goroutine can move.  Natively: a grace period.
 func Quiesce() { time.Sleep(300 * time.Millisecond) }
 
+// LiveGoroutines is the number of goroutines (other than the caller) that have not returned
+// and whose function name contains substr (engine only; 0 natively).
+func LiveGoroutines(substr string) int { return 0 }
+
 // Native reports whether the harness runs natively (replay) rather than symbolically.
 func Native() bool { return true }
 
